@@ -16,7 +16,6 @@ template <class E> struct VecRun {
 
     explicit VecRun(Run& r) : R(r), a(0), b(0) {
         R.apiClass = "XalanVector";
-        R.apiMethods = "push_back,pop_back,insert,erase,assign,resize,reserve,clear,swap,operator=,operator[],at,front,back,begin,end,rbegin,rend,size,empty,capacity,XalanVector";
         a = new V(R.mm, (size_t)(R.plan.at("knobs").num("cap", 0) & 15));
         b = new V(R.mm);
         R.snapshot = [this] { Json o = Json::object(); o["op"] = "force_state"; o["a"] = jsonInts(ma); o["b"] = jsonInts(mb); return o; };
@@ -184,7 +183,6 @@ template <class E> struct ListRun {
 
     explicit ListRun(Run& r) : R(r), a(0), b(0) {
         R.apiClass = "XalanList";
-        R.apiMethods = "push_back,push_front,pop_back,pop_front,insert,erase,splice,clear,swap,front,back,begin,end,rbegin,rend,size,empty,XalanList";
         a = new L(R.mm); b = new L(R.mm);
         R.snapshot = [this] { Json o = Json::object(); o["op"] = "force_state"; o["a"] = jsonInts(ma); o["b"] = jsonInts(mb); return o; };
     }
@@ -279,7 +277,6 @@ template <class E> struct DequeRun {
 
     explicit DequeRun(Run& r) : R(r), a(0), b(0) {
         R.apiClass = "XalanDeque";
-        R.apiMethods = "push_back,pop_back,back,operator[],resize,clear,swap,operator=,begin,end,rbegin,rend,size,empty,XalanDeque";
         const Json& kn = R.plan.at("knobs");
         bsA = (size_t)(kn.num("bsA", 3) & 7); if (!bsA) bsA = 1; bsB = (size_t)(kn.num("bsB", 3) & 7); if (!bsB) bsB = 1;
         const size_t init = (size_t)(kn.num("init", 0) & 7);
